@@ -384,6 +384,10 @@ def _same(a, b):
     return a == b
 
 
+class _Unrelated(Exception):
+    pass
+
+
 class Runner:
     """One execution context (a thread; for kind 'task' started inside a copy of the creator's context,
     which is exactly what asyncio does when it creates a Task)."""
@@ -404,7 +408,15 @@ class Runner:
 
     def main(self):
         try:
-            ex = self.run_block()
+            if (self.env.wit + self.c) % 3 == 1:
+                # the whole context runs inside an `except` clause: an unrelated exception is "being handled" (sys.exc_info() is
+                # not empty) while actions start, succeed and finish -- none of which may depend on it
+                try:
+                    raise _Unrelated("an unrelated exception is being handled while the program runs")
+                except _Unrelated:
+                    ex = self.run_block()
+            else:
+                ex = self.run_block()
             raise HarnessError("Exit without an open block: %r" % (ex,))
         except _Abort:
             pass
